@@ -378,6 +378,11 @@ def make_group(cfg, rng, gid, big=False, force=None, stat=False, kinds=None):
         if content == "noise" and box >= STAT_MINBOX and (rows // box) * (cols // box) * box * box <= STAT_MAXN \
                 and rows >= 2 * box and cols >= 2 * box:
             spec["stationary"] = True
+    if rng.random() < 0.25:
+        # an earlier call in the same process on the same file name with other contents
+        spec["pre"] = {"rows": max(2, rows + rng.choice([-3, 8, 0])), "cols": max(2, cols + rng.choice([5, -2, 0])),
+                       "repr": "bscale" if cfg["repr"] == "2d" else "2d", "bscale_exp": rng.choice([2, -2]),
+                       "content": "const", "constant": 3 * sig, "imgseed": 1}
     if rng.random() < 0.2:
         spec["via"] = "cli"          # through AegeanTools.CLI.BANE.main; only the files are observed
     # the related members (same configuration)
